@@ -26,7 +26,7 @@ use crate::verif::report::Report;
 use crate::verif::scen::{self, Act, Env};
 use crate::verif::world::Chain;
 
-struct ForkScenario<'a> {
+pub(crate) struct ForkScenario<'a> {
     env: &'a Env,
     name: String,
     old: Chain,
@@ -117,7 +117,7 @@ impl<'a> Scenario for ForkScenario<'a> {
     }
 }
 
-struct Item {
+pub(crate) struct Item {
     last_n: u64,
     depth: u64,
     growth: u64,
@@ -328,4 +328,30 @@ pub(crate) fn debug_case() {
                 sim.c().peers.matched_blocks().read().unwrap().len(), sim.c().storage.get_earliest_matched_blocks().map(|(a,b,c)| (a,b,c.len())), sim.c().storage.get_filter_scripts().iter().map(|x| x.block_number).collect::<Vec<_>>());
         }
     }
+}
+
+/// The fork scenario for other checks (C08): full sync of the old branch, then the switch.
+pub(crate) fn scenario<'a>(env: &'a Env, last_n: u64, depth: u64, growth: u64, set: usize) -> (ForkScenario<'a>, Vec<Reg>) {
+    let item = Item { last_n, depth, growth, set };
+    let (old, new, new_tip) = chains(env, &item);
+    let s = &env.scripts;
+    let regs: Vec<Reg> = match set {
+        0 => vec![Reg { script: s.a.clone(), is_lock: true, start: 0 }],
+        _ => vec![Reg { script: s.a.clone(), is_lock: true, start: 0 }, Reg { script: s.b.clone(), is_lock: true, start: 0 }],
+    };
+    (
+        ForkScenario {
+            env,
+            name: format!("lastN{}/depth{}/growth{}/set{}", last_n, depth, growth, set),
+            old,
+            new,
+            regs: regs.clone(),
+            cfg: ClientCfg { last_n, cp_interval: 4, ..Default::default() },
+            new_tip,
+            switched: Cell::new(false),
+            before_switch: RefCell::new(None),
+            explore_switch_moment: false,
+        },
+        regs,
+    )
 }
